@@ -98,6 +98,12 @@ namespace nmtools::view
                                 }
                             }();
 
+                            // a split position beyond the axis gives an empty sub-array (as in numpy)
+                            if (!(j!=axis_)) {
+                                start = (start > (index_t)shape_axis) ? (index_t)shape_axis : start;
+                                stop  = (stop  > (index_t)shape_axis) ? (index_t)shape_axis : stop;
+                            }
+
                             // assume inner container (for start,stop pair)
                             // is fixed-size (see resolver metafunction below)
                             // and it is exactly 2
